@@ -2,7 +2,7 @@
    items - every group of the new side (changed or unchanged) and every deleted group exactly once,
    everything else tags - for all token lists and all opcode lists. *)
 From Coq Require Import List NArith Arith Bool Lia Permutation String.
-From WMD Require Import Lib.Str Lib.PyChars Lib.Difflib Model.RenderTokens Model.RenderMerge Proofs.MergeProofs.
+From WMD Require Import Lib.Str Lib.PyChars Lib.Difflib Model.RenderTokens Model.RenderMerge Model.RenderLabelled Proofs.MergeProofs.
 From WMD Require Import Proofs.ReconcileProofs.
 Import ListNotations.
 Close Scope N_scope.
